@@ -109,3 +109,54 @@ def need_le(lhs: ast.AST, rhs: ast.AST) -> Optional[Tuple[Tuple[Tuple[str, int],
         return None
     d = _sub(a, b)
     return (d[0], -d[1])
+
+
+def _as_edge(form, c):
+    """``x - y <= c`` as (x, y, c); single-variable forms use the zero node."""
+    if len(form) == 1:
+        (s, k), = form
+        if k == 1:
+            return (s, "0", c)
+        if k == -1:
+            return ("0", s, c)
+        return None
+    if len(form) == 2:
+        (s1, k1), (s2, k2) = form
+        if k1 == 1 and k2 == -1:
+            return (s1, s2, c)
+        if k1 == -1 and k2 == 1:
+            return (s2, s1, c)
+    return None
+
+
+def implied_closed(need, known) -> bool:
+    """Zone closure (shortest paths over difference constraints) then lookup."""
+    if implied(need, known):
+        return True
+    form, c = need
+    if not form:
+        return 0 <= c
+    e = _as_edge(form, c)
+    if e is None:
+        return False
+    dist = {}
+    nodes = set()
+    for kf, kc in known:
+        ke = _as_edge(kf, kc)
+        if ke is None:
+            continue
+        x, y, w = ke
+        nodes.update((x, y))
+        if (x, y) not in dist or w < dist[(x, y)]:
+            dist[(x, y)] = w
+    nodes.update((e[0], e[1]))
+    for k in nodes:
+        for i in nodes:
+            if (i, k) not in dist:
+                continue
+            for j in nodes:
+                if (k, j) in dist:
+                    w = dist[(i, k)] + dist[(k, j)]
+                    if (i, j) not in dist or w < dist[(i, j)]:
+                        dist[(i, j)] = w
+    return (e[0], e[1]) in dist and dist[(e[0], e[1])] <= e[2]
